@@ -214,7 +214,3 @@ func main() {
 	_ = strings.Join
 }
 
-func propMain(args []string, o RunOpts, tier string) int {
-	fmt.Fprintln(os.Stderr, "prop: not implemented yet")
-	return 2
-}
